@@ -36,6 +36,10 @@ def status_of(prog: Program, fi: FuncInfo, e: Optional[ast.AST]) -> Optional[str
 def run(prog: Program, rep, tier: str) -> None:
     rep.explanation = EXPLANATION
     rep.assumptions += ["time.time() is monotone"]
+    # every quantity this property speaks about is computed from the user's callback values: the wrapper problems (scaling,
+    # slacks) must hand them on without writing into the objects the callbacks returned (C04 / C11's rule on those constructs)
+    from . import c04 as _c04
+    _c04.callback_results_kept(prog, rep)
     ct = prog.func("pygradflow.solver.Solver._check_terminate")
     ff = facts_for(ct)
     itp, itn, tmr = [p for p in ct.params if p != "self"][:3]
